@@ -171,6 +171,67 @@ func exprsStream(r *Run) {
 		}
 	}
 
+	// ---- 0b. every integer literal denotes itself: powers of two, their neighbours, table sizes (no value is special)
+	{
+		env := map[string]*V{}
+		seen := map[int64]bool{}
+		var ns []int64
+		add := func(n int64) {
+			if !seen[n] {
+				seen[n] = true
+				ns = append(ns, n)
+			}
+		}
+		for e := uint(0); e < 63; e++ {
+			for d := int64(-2); d <= 2; d++ {
+				add(int64(1)<<e + d)
+				add(-(int64(1)<<e + d))
+			}
+		}
+		for n := int64(0); n <= 2100; n++ {
+			add(n)
+		}
+		for _, n := range ns {
+			if !r.Mine() {
+				continue
+			}
+			src := fmt.Sprintf("{{ %d }}|{%% assign v = %d %%}{{ v }}|{%% if %d == v %%}T{%% endif %%}", n, n, n)
+			want := fmt.Sprintf("%d|%d|T", n, n)
+			if n > -(1<<53) && n < 1<<53 { // arithmetic goes through float64: exact up to 2^53 (C17)
+				src += fmt.Sprintf("|{{ %d | plus: 0 }}", n)
+				want += fmt.Sprintf("|%d", n)
+			}
+			res := run(engineCfg{}, src, env, "int-literals")
+			if out, ok := okOut(res); !ok || out != want {
+				r.Violate("C08", "literal-denotes-itself", renderCaseLine(engineCfg{}, "", 0, src, env), fmt.Sprintf("%s: want %q got %s", src, want, res))
+			}
+		}
+		// the size of an array or map of exactly n entries, for the same table sizes
+		for _, n := range []int{255, 256, 257, 1023, 1024, 1025, 2047, 2048} {
+			if !r.Mine() {
+				continue
+			}
+			src := fmt.Sprintf("{{ (1..%d) | size }}|{{ (1..%d) | last }}|{%% assign a = (0..%d) | reverse %%}{{ a[0] }}|{{ a.size }}", n, n, n)
+			want := fmt.Sprintf("%d|%d|%d|%d", n, n, n, n+1)
+			res := run(engineCfg{}, src, env, "int-literals")
+			if out, ok := okOut(res); !ok || out != want {
+				r.Violate("C08", "literal-denotes-itself", renderCaseLine(engineCfg{}, "", 0, src, env), fmt.Sprintf("%s: want %q got %s", src, want, res))
+			}
+		}
+		// string literals that differ only in the white space INSIDE them, parsed one after the other in one process
+		for _, lit := range []string{"a b", "a  b", "a\nb", "a\tb", "a \t b", " a b", "a b ", "a\r\nb", "ab"} {
+			if !r.Mine() {
+				continue
+			}
+			src := "{{ \"" + lit + "\" }}|{{ '" + lit + "' | size }}|{% assign m = \"" + lit + "\" %}{{ m }}"
+			want := lit + "|" + fmt.Sprint(len(lit)) + "|" + lit
+			res := run(engineCfg{}, src, env, "string-literal-whitespace")
+			if out, ok := okOut(res); !ok || out != want {
+				r.Violate("C08", "literal-denotes-itself", renderCaseLine(engineCfg{}, "", 0, src, env), fmt.Sprintf("%q: want %q got %s", src, want, res))
+			}
+		}
+	}
+
 	// ---- 2a. maps whose key type is a DEFINED string type (type Section string): a.b, a["b"], a[k] read the entry,
 	// size falls back to the entry count, a missing key is nil. Built directly as Go values (the value codec has
 	// no defined key types), so these cases are judged by the oracle alone (no case line for the model). ----
